@@ -28,6 +28,7 @@ Definition sL2PTP := S "L2PTP".
 Definition sL2Path := S "L2Path".
 Definition sPatch := S "Patch".
 Definition sPortMirror := S "PortMirror".
+Definition sL2Multisite := S "L2Multisite".
 Definition dash := S "-".
 
 (* ---- name syntax: BaseSliver.set_name with the NAME_REGEX of each sliver class (ASCII inputs) --------- *)
